@@ -57,6 +57,8 @@ def assemble(repo, cdir, unit, mutate=None, mustfail=False):
     for it in unit["items"]:
         if unit.get("global_edits") and it["path"][-1].startswith("fn "):
             it = dict(it, edits=list(unit["global_edits"]) + list(it.get("edits") or []))
+        if unit.get("global_edits_post") and it["path"][-1].startswith("fn "):
+            it = dict(it, edits=list(it.get("edits") or []) + list(unit["global_edits_post"]))
         ex = extract_item(repo, it, log)
         if ex is None:
             continue
